@@ -131,18 +131,21 @@ impl RegisterBase {
         // Every write through this register, including a raw `IRegister::write`, must drop the
         // caches of the registers that declare it as `pInvalidator`.
         cx.invalidate_cache_by(nid);
-        self.p_port
+        let res = self
+            .p_port
             .expect_iport_kind(store)?
-            .write(address, buf, device, store, cx)?;
+            .write(address, buf, device, store, cx);
 
-        if self.cacheable == CachingMode::WriteThrough {
+        if res.is_ok() && self.cacheable == CachingMode::WriteThrough {
             cx.cache_data(nid, address, length, buf);
         } else {
             // The written data is not cached: drop what an earlier read cached for this
             // register, otherwise the next read would return the value from before the write.
+            // The same holds when the port reports a failure: the device may have applied the
+            // write, or a part of it, before failing.
             cx.invalidate_cache_of(nid);
         }
-        Ok(())
+        res
     }
 
     pub(super) fn address<T: ValueStore, U: CacheStore>(
